@@ -193,10 +193,10 @@ func c07History(c *Ctx) {
 	sockL := []string{"udp", "tcp", "gnet", "tls", "quic"} // listeners that take the client address from the socket
 	for i := 0; i < 4; i++ {
 		clients = append(clients,
-			c07Client{Listener: sockL[i%5], LocalIP: fmt.Sprintf("127.1.0.%d", 10+i)},  // A
-			c07Client{Listener: sockL[(i+1)%5], LocalIP: fmt.Sprintf("127.2.7.%d", 10+i)}, // B
-			c07Client{Listener: sockL[(i+2)%5], LocalIP: fmt.Sprintf("127.3.0.%d", i)},    // A (other range)
-			c07Client{Listener: sockL[(i+3)%5], LocalIP: fmt.Sprintf("127.77.0.%d", 1+i)}, // none
+			c07Client{Listener: sockL[i%5], LocalIP: fmt.Sprintf("127.1.0.%d", 10+i)},                                // A
+			c07Client{Listener: sockL[(i+1)%5], LocalIP: fmt.Sprintf("127.2.7.%d", 10+i)},                            // B
+			c07Client{Listener: sockL[(i+2)%5], LocalIP: fmt.Sprintf("127.3.0.%d", i)},                               // A (other range)
+			c07Client{Listener: sockL[(i+3)%5], LocalIP: fmt.Sprintf("127.77.0.%d", 1+i)},                            // none
 			c07Client{Listener: []string{"http", "fasthttp", "https"}[i%3], Hdr: fmt.Sprintf("2001:db8::%x", 100+i)}, // C
 		)
 	}
@@ -245,11 +245,11 @@ func c07JudgeHistory(c *Ctx, h *chHist, fetches map[string][]*chFetch, ttl int) 
 		}
 	}
 	type sinfo struct {
-		groups   map[string]bool
-		first    *chResp // earliest received response showing the serial
-		resps    []*chResp
-		storeUB  int64
-		fetch    *chFetch
+		groups  map[string]bool
+		first   *chResp // earliest received response showing the serial
+		resps   []*chResp
+		storeUB int64
+		fetch   *chFetch
 	}
 	serials := map[string]*sinfo{}
 	var hits, misses, failed int64
